@@ -138,6 +138,14 @@ pub fn inject_hook(core: &mut Core, ni: usize, t: u64, st: &mut InjState) {
                     desc.push_str(", ack ahead");
                 }
             }
+            // towards an endpoint whose peer was ALREADY dropped, the wrongly sized status list may also come with the
+            // disconnect flag set (on a live endpoint a flagged packet is a well-formed disconnect request: not injected)
+            if inj.replay_genuine && r.chance(0.4) {
+                if let WBody::Input { disc, .. } = &mut m.body {
+                    *disc = true;
+                    desc.push_str(", disconnect_requested");
+                }
+            }
         }
         K_NEGSTART => {
             if let WBody::Input { start, .. } = &mut m.body {
